@@ -11,3 +11,10 @@ func VerifTelemetryCounterName(crash []byte) (string, error) { return telemetryC
 func VerifParseStackPCs(crash string) ([]uintptr, error)      { return parseStackPCs(crash) }
 func VerifSentinel() uint64                                   { return sentinel() }
 func VerifWriteSentinel(w io.Writer)                          { writeSentinel(w) }
+
+// VerifSetChildHooks replaces what Child does with the name it derived
+// (incrementCounter) and its exit hook, as the package's own tests do.
+func VerifSetChildHooks(inc func(name string), exit func()) {
+	incrementCounter = inc
+	childExitHook = exit
+}
